@@ -12,6 +12,7 @@ import (
 	"encoding/base64"
 	"encoding/json"
 	"fmt"
+	"github.com/valyala/fasthttp"
 	"math/rand"
 	"os"
 	"runtime"
@@ -470,6 +471,35 @@ func (w *rpcWorld) blockTime(h func(body string) (int, string, any), multi *Mult
 	return c
 }
 
+// REST endpoints /api/v1/slot-to-cid/{slot} and /api/v1/sig-to-cid/{sig}: 200 + the CID of the block / transaction, 404 when
+// the key is not served (growth beyond the listed properties: the same "reproduce the archive" reading)
+func (w *rpcWorld) apiCid(handler func(*fasthttp.RequestCtx), op string, slot uint64, sig solana.Signature, sigID int, truth cid.Cid) rpcCall {
+	c := rpcCall{Op: op, Proto: "rest", Slot: int64(slot), Sig: sigID, Sigs: []int{}}
+	path := fmt.Sprintf("/api/v1/slot-to-cid/%d", slot)
+	if op == "api.sig-to-cid" {
+		path = "/api/v1/sig-to-cid/" + sig.String()
+	}
+	var rc fasthttp.RequestCtx
+	var rq fasthttp.Request
+	rq.Header.SetMethod("GET")
+	rq.SetRequestURI(path)
+	rc.Init(&rq, nil, nil)
+	if p := vt.Guard(func() { handler(&rc) }); p != "" {
+		c.Status, c.Detail = "panic", p
+		return c
+	}
+	switch st := rc.Response.StatusCode(); {
+	case st == 200:
+		c.Status = "ok"
+		c.Txsame = truth.Defined() && string(rc.Response.Body()) == truth.String()
+	case st == 404:
+		c.Status = "notfound"
+	default:
+		c.Status, c.Detail = "error", fmt.Sprintf("http %d", st)
+	}
+	return c
+}
+
 // getSlot / getFirstAvailableBlock (JSON-RPC only): the newest / oldest archived slot of the loaded epochs
 func (w *rpcWorld) edgeSlot(h func(body string) (int, string, any), method string) rpcCall {
 	c := rpcCall{Op: method, Proto: "json", Slot: -1, Sigs: []int{}}
@@ -675,10 +705,12 @@ func TestVerifC02(t *testing.T) {
 					k++
 					o.Calls = append(o.Calls, w.jsonGetBlock(h, bt.Spec.Slot, enc), w.grpcGetBlock(multi, bt.Spec.Slot))
 					o.Calls = append(o.Calls, w.blockTime(h, multi, bt.Spec.Slot, "json"), w.blockTime(h, multi, bt.Spec.Slot, "grpc"))
+					o.Calls = append(o.Calls, w.apiCid(handler, "api.slot-to-cid", bt.Spec.Slot, solana.Signature{}, 0, bt.Cid))
 					for _, tt := range bt.Txs {
 						enc := rpcEncodings[k%len(rpcEncodings)]
 						k++
 						o.Calls = append(o.Calls, w.jsonGetTransaction(h, tt.Sig, tt.Spec.SigID, enc), w.grpcGetTransaction(multi, tt.Sig, tt.Spec.SigID))
+						o.Calls = append(o.Calls, w.apiCid(handler, "api.sig-to-cid", 0, tt.Sig, tt.Spec.SigID, tt.Cid))
 					}
 				}
 			}
